@@ -14,6 +14,12 @@ TRUSTED_BASE = {
 }
 
 PROPS = {
+    "C14": {
+        "tests": ["TestC14"],
+        "design_ref": "DESIGN.md §3.14",
+        "level_text": "TODO",
+        "level_note": "TODO",
+    },
     "C13": {
         "tests": ["TestC13"],
         "design_ref": "DESIGN.md §3.13",
